@@ -3,6 +3,7 @@ package c03
 import (
 	"encoding/json"
 	"fmt"
+	"regexp"
 	"sort"
 	"strings"
 	"testing"
@@ -83,6 +84,64 @@ func specOf(pg gen.PrintedGraph, keysOpt bool) lib.Spec {
 	return sp
 }
 
+var reTypeName = regexp.MustCompile(`@[A-Za-z0-9_]+`)
+
+// nestTypes: every type the root text does not name itself is added, not to the root, but to each
+// type whose text names it (and so on downwards) - the root gets to know it through the tables of
+// the types it has. The names mean the same everywhere, so nothing changes for any document.
+func nestTypes(sp lib.Spec) (lib.Spec, bool) {
+	direct := map[string]bool{}
+	for _, n := range reTypeName.FindAllString(sp.Schema, -1) {
+		direct[n] = true
+	}
+	byName := map[string]lib.Named{}
+	for _, t := range sp.Types {
+		byName[t.Name] = t
+	}
+	var build func(t lib.Named, path map[string]bool) lib.Named
+	build = func(t lib.Named, path map[string]bool) lib.Named {
+		seen := map[string]bool{}
+		for _, n := range reTypeName.FindAllString(t.Text, -1) {
+			d, ok := byName[n]
+			if !ok || direct[n] || path[n] || seen[n] || n == t.Name {
+				continue
+			}
+			seen[n] = true
+			path[n] = true
+			t.Inner = append(t.Inner, build(d, path))
+			delete(path, n)
+		}
+		return t
+	}
+	out := sp
+	out.Types = nil
+	nested := false
+	for _, t := range sp.Types {
+		if !direct[t.Name] {
+			continue
+		}
+		nt := build(t, map[string]bool{t.Name: true})
+		nested = nested || len(nt.Inner) > 0
+		out.Types = append(out.Types, nt)
+	}
+	// a type nobody reaches from the root stays where it was
+	reach := map[string]bool{}
+	var mark func(ts []lib.Named)
+	mark = func(ts []lib.Named) {
+		for _, t := range ts {
+			reach[t.Name] = true
+			mark(t.Inner)
+		}
+	}
+	mark(out.Types)
+	for _, t := range sp.Types {
+		if !reach[t.Name] {
+			out.Types = append(out.Types, t)
+		}
+	}
+	return out, nested
+}
+
 func TestComposition(t *testing.T) {
 	run.SkipIfReplaying(t)
 	defer run.Done(t, chk)
@@ -95,6 +154,13 @@ func TestComposition(t *testing.T) {
 		sp.SameFile = rapid.IntRange(0, 2).Draw(t, "sameFile") == 0
 		if sp.SameFile {
 			run.Label("all-objects-with-one-file-name")
+		}
+		if rapid.IntRange(0, 2).Draw(t, "nest") == 0 {
+			if nsp, nested := nestTypes(sp); nested {
+				sp = nsp
+				sp.Types[0].InnerLate = rapid.Bool().Draw(t, "innerLate")
+				run.Label("types-known-through-the-tables-of-other-types")
+			}
 		}
 		s, add := lib.Build(sp)
 		cr := lib.Check(s)
